@@ -5,6 +5,9 @@ ROOT = os.path.dirname(os.path.dirname(os.path.abspath(__file__)))
 ALL = ["C%02d" % i for i in range(1, 18)]
 TIE = " Tied to /repo on every run by a differential correspondence (implementation built from the working tree vs the executable Lean model, generated inputs from VERIF_SEED, shrinking, property-oracle search on disagreement)."
 CLAIMS = {
+ "C14": ("Lean 4 theorems over models of Glob / WalkDir / ReadDir / the existence helpers built on the MemFS model: SkipDir and SkipAll never reach the caller, a missing root is reported to the callback once, helpers answer what Stat implies, patterns without meta characters match iff Lstat succeeds, malformed patterns are reported; the models are tied to /repo by differential runs (patterns with * ? classes escapes and malformed forms, callbacks acting at every visit index) and MemFS is compared with filepath.Glob / filepath.WalkDir / os.ReadDir on an identical tmpfs tree.",
+         "Set-level specs of Glob and WalkDir (walk_spec, glob_spec) are not proved; equality with the standard library is an oracle run.",
+         "Lean 4 proof (case analysis) + differential correspondence with impl and path/filepath + os", "§3 C14"),
  "C17": ("Lean 4 theorems: the SetOSType decision table stated outright (tag on: every requested type honoured whatever the host; tag off: only the host type), separator by type; tied to /repo by the construction matrix {MemFS, OrefaFS} × {Unknown, Linux, Windows} run from a tag-on and a tag-off harness binary. Agreement of the Windows-typed and Linux-typed emulations (success/failure call by call, isomorphic trees) is an oracle run in lockstep on portable histories, with recorded divergence classes.",
          "os_agreement is not a theorem (the Lean file-system models are Linux-only); volume management not exercised.",
          "Lean 4 proof (decision table) + lockstep differential of the two emulations", "§3 C17"),
